@@ -72,6 +72,14 @@ def build_fn(f):
     raise ValueError(f)
 
 
+CALLER_LISTS = []          # the list objects handed to ListPattern constructors (Pseq, Pser, Place, Ptuple, Pslide)
+
+
+def keep(lst):
+    CALLER_LISTS.append(lst)
+    return lst
+
+
 def build(t):
     """Term -> plain value (for ['const', v]) or a real Pattern object."""
     import operator
@@ -85,9 +93,9 @@ def build(t):
     if k == 'const':
         return val(t[1])
     if k == 'seq':
-        return lp.Pseq([B(x) for x in t[1]], rep(t[2]), t[3])
+        return lp.Pseq(keep([B(x) for x in t[1]]), rep(t[2]), t[3])
     if k == 'ser':
-        return lp.Pser([B(x) for x in t[1]], rep(t[2]), t[3])
+        return lp.Pser(keep([B(x) for x in t[1]]), rep(t[2]), t[3])
     if k == 'pn':
         return fp.Pn(B(t[1]), rep(t[2]))
     if k == 'place':
@@ -98,9 +106,9 @@ def build(t):
                 items.append(tuple(sub) if it.get('tuple') else sub)
             else:
                 items.append(B(it))
-        return lp.Place(items, rep(t[2]), t[3])
+        return lp.Place(keep(items), rep(t[2]), t[3])
     if k == 'tuple':
-        return lp.Ptuple([B(x) for x in t[1]], rep(t[2]))
+        return lp.Ptuple(keep([B(x) for x in t[1]]), rep(t[2]))
     if k == 'pseed':
         rp = t[2]
         cls = {'prand': lp.Prand, 'pxrand': lp.Pxrand, 'pshuffle': lp.Pshuffle}[rp[0]]
@@ -113,7 +121,7 @@ def build(t):
     if k == 'switch1':
         return lp.Pswitch1([B(x) for x in t[1]], B(t[2]))
     if k == 'slide':
-        return lp.Pslide([B(x) for x in t[1]], B(t[2]), B(t[3]), t[4], bool(t[5]), rep(t[6]))
+        return lp.Pslide(keep([B(x) for x in t[1]]), B(t[2]), B(t[3]), t[4], bool(t[5]), rep(t[6]))
     if k == 'series':
         return vp.Pseries(val(t[1]), B(t[2]), rep(t[3]))
     if k == 'geom':
@@ -184,6 +192,7 @@ def build(t):
 def run_case(case, budget_s):
     from sc3.base import stream as stm
     out = []
+    del CALLER_LISTS[:]
     try:
         p = build(case['pat'])
     except Exception as e:
@@ -195,7 +204,17 @@ def run_case(case, budget_s):
     signal.setitimer(signal.ITIMER_REAL, budget_s)
     try:
         for op in case['ops']:
-            if op[0] == 'new':
+            if op[0] == 'mutate':
+                # the caller goes on using the lists it built the patterns from
+                for lst in CALLER_LISTS:
+                    if op[1] == 'reverse':
+                        lst.reverse()
+                    elif op[1] == 'append':
+                        lst.append(-99)
+                    elif lst:
+                        lst[0] = -77
+                out.append('ok')
+            elif op[0] == 'new':
                 out.append(str(len(streams)))
                 streams.append(stm.stream(p))
             elif op[0] == 'next':
